@@ -53,6 +53,10 @@ func c17Out(name, args string) string {
 
 type c17Both struct{ c17Base }
 
+// t0 declares that it fires its callbacks itself: the framework does not wrap it (so a panic of this tool is caught by
+// the tools node's own recover, not by the callback wrapper)
+func (t *c17Both) IsCallbacksEnabled() bool { return true }
+
 func (t *c17Both) InvokableRun(ctx context.Context, args string, opts ...tool.Option) (string, error) {
 	if err := t.pre(ctx); err != nil {
 		return "", err
